@@ -17,8 +17,22 @@ Record tycase := {
 Definition sound (c : tycase) : bool :=
   match c_obs c with Accepted w => conforms (c_ty c) w | Rejected => true | Crashed => false end.
 
+(* command-line / config TEXT is of the right shape when what YAML reads it as is (not a str: a str stays the text itself) *)
+Definition text_right_shape (c : tycase) : bool :=
+  match c_in c with
+  | VStr s => match strip s with
+              | [] => false                       (* blank text is not YAML's null for the parser: it stays the text *)
+              | _ => if str_eqb (strip s) [45%N] then false
+                     else match case_yload (c_oracle c) s with
+                          | LVal x => negb (is_str x) && shaped (c_ty c) x
+                          | _ => false
+                          end
+              end
+  | _ => false
+  end.
+
 Definition never_rejects_shaped (c : tycase) : bool :=
-  if wf_ty (c_ty c) && shaped (c_ty c) (c_in c) then is_accepted (c_obs c) else true.
+  if wf_ty (c_ty c) && (shaped (c_ty c) (c_in c) || text_right_shape c) then is_accepted (c_obs c) else true.
 
 Definition compositional (c : tycase) : bool :=
   let yl := case_yload (c_oracle c) in
